@@ -82,6 +82,9 @@ class LoopContext:
     continue_jumps: List[int] = field(default_factory=list)
     label: Optional[str] = None
     is_loop: bool = True  # False for switch statements (break only, no continue)
+    # Operand stack slots the construct keeps while its body runs
+    # (the iterator of for-in/for-of, the discriminant of switch)
+    stack_slots: int = 0
 
 
 @dataclass
@@ -112,6 +115,7 @@ class Compiler:
             {}
         )  # bytecode_pos -> (line, column)
         self._current_loc: Optional[Tuple[int, int]] = None  # Current source location
+        self._pending_loop_label: Optional[str] = None  # Label of the loop compiled next
 
     def compile(self, node: Program) -> CompiledFunction:
         """Compile a program to bytecode."""
@@ -160,6 +164,19 @@ class Compiler:
             else:
                 self.bytecode.append(arg)
         return pos
+
+    def _take_loop_label(self) -> Optional[str]:
+        """Label attached to the loop statement being compiled (for 'continue label')."""
+        label, self._pending_loop_label = self._pending_loop_label, None
+        return label
+
+    def _emit_pops_for_exit(self, target: LoopContext) -> None:
+        """Discard the stack slots of the constructs a break/continue jumps out of."""
+        for loop_ctx in reversed(self.loop_stack):
+            if loop_ctx is target:
+                break
+            for _ in range(loop_ctx.stack_slots):
+                self._emit(OpCode.POP)
 
     def _set_loc(self, node: Node) -> None:
         """Set current source location from an AST node."""
@@ -438,7 +455,7 @@ class Compiler:
                 self._patch_jump(jump_false)
 
         elif isinstance(node, WhileStatement):
-            loop_ctx = LoopContext()
+            loop_ctx = LoopContext(label=self._take_loop_label())
             self.loop_stack.append(loop_ctx)
 
             loop_start = len(self.bytecode)
@@ -461,7 +478,7 @@ class Compiler:
             self.loop_stack.pop()
 
         elif isinstance(node, DoWhileStatement):
-            loop_ctx = LoopContext()
+            loop_ctx = LoopContext(label=self._take_loop_label())
             self.loop_stack.append(loop_ctx)
 
             loop_start = len(self.bytecode)
@@ -482,7 +499,7 @@ class Compiler:
             self.loop_stack.pop()
 
         elif isinstance(node, ForStatement):
-            loop_ctx = LoopContext()
+            loop_ctx = LoopContext(label=self._take_loop_label())
             self.loop_stack.append(loop_ctx)
 
             # Init
@@ -524,7 +541,7 @@ class Compiler:
             self.loop_stack.pop()
 
         elif isinstance(node, ForInStatement):
-            loop_ctx = LoopContext()
+            loop_ctx = LoopContext(label=self._take_loop_label(), stack_slots=1)
             self.loop_stack.append(loop_ctx)
 
             # Compile object expression
@@ -582,18 +599,18 @@ class Compiler:
 
             self._emit(OpCode.JUMP, loop_start)
             self._patch_jump(jump_done)
-            self._emit(OpCode.POP)  # Pop iterator
-
-            # Patch break and continue jumps
+            # break lands on the POP so that the iterator is discarded
             for pos in loop_ctx.break_jumps:
                 self._patch_jump(pos)
+            self._emit(OpCode.POP)  # Pop iterator
+
             for pos in loop_ctx.continue_jumps:
                 self._patch_jump(pos, loop_start)
 
             self.loop_stack.pop()
 
         elif isinstance(node, ForOfStatement):
-            loop_ctx = LoopContext()
+            loop_ctx = LoopContext(label=self._take_loop_label(), stack_slots=1)
             self.loop_stack.append(loop_ctx)
 
             # Compile iterable expression
@@ -634,11 +651,11 @@ class Compiler:
 
             self._emit(OpCode.JUMP, loop_start)
             self._patch_jump(jump_done)
-            self._emit(OpCode.POP)  # Pop iterator
-
-            # Patch break and continue jumps
+            # break lands on the POP so that the iterator is discarded
             for pos in loop_ctx.break_jumps:
                 self._patch_jump(pos)
+            self._emit(OpCode.POP)  # Pop iterator
+
             for pos in loop_ctx.continue_jumps:
                 self._patch_jump(pos, loop_start)
 
@@ -674,6 +691,7 @@ class Compiler:
             # Emit pending finally blocks before the break
             self._emit_pending_finally_blocks()
 
+            self._emit_pops_for_exit(ctx)
             pos = self._emit_jump(OpCode.JUMP)
             ctx.break_jumps.append(pos)
 
@@ -686,7 +704,7 @@ class Compiler:
             ctx = None
             for loop_ctx in reversed(self.loop_stack):
                 # Skip non-loop contexts (like switch) unless specifically labeled
-                if not loop_ctx.is_loop and target_label is None:
+                if not loop_ctx.is_loop:
                     continue
                 if target_label is None or loop_ctx.label == target_label:
                     ctx = loop_ctx
@@ -698,6 +716,7 @@ class Compiler:
             # Emit pending finally blocks before the continue
             self._emit_pending_finally_blocks()
 
+            self._emit_pops_for_exit(ctx)
             pos = self._emit_jump(OpCode.JUMP)
             ctx.continue_jumps.append(pos)
 
@@ -781,7 +800,7 @@ class Compiler:
 
             # Case bodies
             case_positions = []
-            loop_ctx = LoopContext(is_loop=False)  # For break statements only
+            loop_ctx = LoopContext(is_loop=False, stack_slots=1)  # For break statements only
             self.loop_stack.append(loop_ctx)
 
             for i, case in enumerate(node.cases):
@@ -790,6 +809,10 @@ class Compiler:
                     self._compile_statement(stmt)
 
             self._patch_jump(jump_end)
+            # break lands on the POP so that the discriminant is discarded
+            for pos in loop_ctx.break_jumps:
+                self._patch_jump(pos)
+            loop_ctx.break_jumps = []
             self._emit(OpCode.POP)  # Pop discriminant
 
             # Patch jumps to case bodies
@@ -838,6 +861,18 @@ class Compiler:
             # is_loop=False so unlabeled break/continue skip this context
             loop_ctx = LoopContext(label=node.label.name, is_loop=False)
             self.loop_stack.append(loop_ctx)
+            if isinstance(
+                node.body,
+                (
+                    WhileStatement,
+                    DoWhileStatement,
+                    ForStatement,
+                    ForInStatement,
+                    ForOfStatement,
+                ),
+            ):
+                # 'continue label' targets the loop itself, which takes the label too
+                self._pending_loop_label = node.label.name
 
             # Compile the labeled body
             self._compile_statement(node.body)
